@@ -247,6 +247,14 @@ class LitSet(object):
         return "LitSet%r" % (self.items,)
 
 
+class ImgSetV(object):
+    """set(f(x) for x in seq) over a sequence of symbolic length: only its cardinality is modelled"""
+    __slots__ = ("seq", "fn")
+
+    def __init__(self, seq, fn):
+        self.seq, self.fn = seq, fn        # fn(index term) -> scalar z3 term
+
+
 class EnumV(object):
     """enumerate(seq, start) over a sequence of symbolic length"""
     __slots__ = ("seq", "start")
